@@ -224,6 +224,17 @@ def compare(ex, st: State, op, a: V, b: V, node):
             x, y = a.e, b.e
             c = {ast.Lt: x < y, ast.LtE: x <= y, ast.Gt: y < x, ast.GtE: y <= x}[t]
             return [(st, c)]
+        if 'any' in (a.kind, b.kind) and a.kind in NUM + ('any',) and b.kind in NUM + ('any',):
+            # operand of statically unknown kind (e.g. a parameter added after the contract was written): exact for two
+            # integers, otherwise an unconstrained truth value
+            x, y = st.box(a), st.box(b)
+            c = fresh(BoolS, 'cmp')
+            xi, yi = Val.i(x), Val.i(y)
+            exact = {ast.Lt: xi < yi, ast.LtE: xi <= yi, ast.Gt: xi > yi, ast.GtE: xi >= yi}[t]
+            st.assume(z3.Implies(z3.And(Val.is_int(x), Val.is_int(y)), c == exact))
+            ex.ctx.assumptions.add('ordering of values of unknown kind: exact for integers, otherwise an unconstrained '
+                                   'truth value; assumed not to raise (as for conditions the engine treats as opaque)')
+            return [(st, c)]
         raise Unsupported(f'ordering of {a.kind},{b.kind}')
     if t in (ast.In, ast.NotIn):
         outs = []
